@@ -502,3 +502,5 @@ def _tree_seed_replay(env):
 
 
 META['explanation'] += ' Structural claims: no generator object, mutable container or mutable default argument lives on a module / class of the computing packages.'
+
+META['explanation'] += ' Replay A is configured with interned literals, replay B with equal-by-value copies of other identity (strings as a parser would produce them): identically configured means equal, not identical.'
